@@ -116,6 +116,8 @@ def deviation(c):
         return "rm-dir-missing-file"
     if op == "rm" and isdir(p) and not any(under(p, q) for q in idx):
         return "rm-untracked-dir-ok"
+    if op == "rm" and isdir(p) and any(under(p, d) or d == p for d in st["dirs"]):
+        return "rm-prunes-empty-dirs"
     if op == "rm":
         gone = [q for q in wt if q in idx and (q == p or under(p, q))]
         left = [q for q in wt if q not in gone]
